@@ -29,6 +29,7 @@
 #include <string>
 #include <iostream>
 #include <cmath>
+#include <algorithm>
 
 #include "libvpsc/rectangle.h"
 #include "libavoid/libavoid.h"
@@ -120,10 +121,20 @@ void dialect::doHOLA(Graph &G, const HolaOpts &holaOpts, Logger *logger) {
     if (trees.size() == 1 && trees.front()->underlyingGraph()->getNumNodes() == G.getNumNodes()) {
         // Give the tree a symmetric layout.
         Tree_SP &tree = trees.front();
+        // The symmetric layout puts the ranks at equal distances, measured between node centres, and nothing
+        // is going to remove overlaps afterward. So the rank separation must be large enough for the largest
+        // extent that any node has in the growth direction (plus room for connectors to pass between ranks).
+        bool verticalGrowth = Compass::isVerticalCard(holaOpts.defaultTreeGrowthDir);
+        double maxAxialExtent = 0;
+        for (auto p : tree->underlyingGraph()->getNodeLookup()) {
+            dimensions d = p.second->getDimensions();
+            maxAxialExtent = std::max(maxAxialExtent, verticalGrowth ? d.second : d.first);
+        }
+        double rankSep = std::max(holaOpts.treeLayoutScalar_rankSep*IEL, maxAxialExtent + nodePadding);
         tree->symmetricLayout(
             holaOpts.defaultTreeGrowthDir,
             holaOpts.treeLayoutScalar_nodeSep*IEL,
-            holaOpts.treeLayoutScalar_rankSep*IEL,
+            rankSep,
             holaOpts.preferConvexTrees
         );
         // Route the edges.
